@@ -337,12 +337,30 @@ func mutableInside(v px.Value, top bool, depth int) bool {
 // the entry is created (its content never changes — that is the snapshot predicate).
 type cacheWant struct {
 	reduced, detailed px.Type
+	found             string // per entry: is it what a lookup of its key answers? (not when a key occurs twice)
+}
+
+// lookups: for every entry of a hash, whether a lookup of its key finds exactly that entry
+func lookups(v px.Value) string {
+	h := hashOf(v)
+	if h == nil {
+		return ""
+	}
+	var b strings.Builder
+	h.EachPair(func(k, e px.Value) {
+		if got, ok := h.Get(k); ok && h.IncludesKey(k) && got == e {
+			b.WriteByte('t')
+		} else {
+			b.WriteByte('f')
+		}
+	})
+	return b.String()
 }
 
 func wantOf(v px.Value) (w *cacheWant) {
 	if err := safely(func() {
 		fresh := rebuilt(v)
-		w = &cacheWant{fresh.PType(), px.DetailedValueType(fresh)}
+		w = &cacheWant{fresh.PType(), px.DetailedValueType(fresh), lookups(fresh)}
 	}); err != nil {
 		return nil // a corrupted value (nil element): the snapshot predicate reports that
 	}
@@ -363,12 +381,8 @@ func staleCache(v px.Value, w *cacheWant) (msg string, stale bool) {
 			msg, stale = "infers detailed type "+d.String()+", an equal fresh value "+w.detailed.String(), true
 			return
 		}
-		if h := hashOf(v); h != nil {
-			h.EachPair(func(k, e px.Value) {
-				if got, ok := h.Get(k); !(ok && h.IncludesKey(k) && got == e) {
-					msg, stale = "does not find its own entry under key "+k.String(), true
-				}
-			})
+		if got := lookups(v); got != w.found {
+			msg, stale = "answers lookups of its own keys "+got+", an equal fresh value "+w.found, true
 		}
 	}); err != nil {
 		return "faults when asked for its type or a key", true
@@ -624,9 +638,6 @@ func (h *hist) step(c px.Context, st sx.Sexp) (res *entry, recv int, args []int)
 		}
 		switch op {
 		case "addall":
-			if isHash && s.kind == 'a' {
-				return marker("~"), recv, args // WrapHashFromArray: type-inference dependent, not part of this harness
-			}
 			return call(func() { out = r.list().AddAll(sl) }), recv, args
 		case "deleteall":
 			return call(func() { out = r.list().DeleteAll(sl) }), recv, args
@@ -800,6 +811,27 @@ func (h *hist) step(c px.Context, st sx.Sexp) (res *entry, recv int, args []int)
 			_ = l.AppendTo(make([]px.Value, 0, 1))
 			_ = l.ElementType()
 			_ = l.IsEmpty()
+			l.Reduce2(px.Undef, func(a, b px.Value) px.Value { return b })
+			if hh := r.hash(); hh != nil {
+				hh.AllPairs(func(k, v px.Value) bool { return true })
+				hh.AnyPair(func(k, v px.Value) bool { return false })
+				hh.EachKey(func(px.Value) {})
+				hh.EachValue(func(px.Value) {})
+				hh.EachPair(func(k, v px.Value) {
+					hh.IncludesKey(k)
+					hh.Get2(k, px.Undef)
+					hh.GetEntry(k.String())
+					hh.GetEntryFold(k.String())
+				})
+				_ = hh.ToStringMap()
+				_ = hh.AllKeysAreStrings()
+				_ = hh.AppendEntriesTo(nil)
+			} else if ar, ok := r.v.(*types.Array); ok {
+				ar.Dig(types.WrapValues([]px.Value{types.WrapInteger(0), types.WrapInteger(0)}))
+			}
+			if rf, ok := r.v.(px.Reflected); ok {
+				_ = safely(func() { _ = rf.Reflect(c) }) // (values without a Go counterpart may refuse)
+			}
 		}), recv, nil
 	case "ser":
 		plainData := r.kind != 'm' && plain(r.v, true)
